@@ -316,6 +316,10 @@ class Result:
             "wall_s": round(time.time() - self.t0, 2),
             "violations": len(self.violations),
         }
+        if os.environ.get("VERIF_NO_EVIDENCE"):
+            # development runs against a deliberately broken /repo must not replace the committed evidence
+            json.dump(ev, open(os.path.join(WORK, "evidence_scratch_%s.json" % self.pid), "w"), indent=1, ensure_ascii=False)
+            return rc
         json.dump(ev, open(os.path.join(EVID, self.pid + ".json"), "w"), indent=1, ensure_ascii=False)
         return rc
 
